@@ -21,7 +21,7 @@ static void emit(pstage *s, unsigned v) {
 static unsigned bestfit16(const ref_dcfg *c, unsigned hi, unsigned lo) { for (const unsigned char *p = c->bestfit_map; p && !(p[0] == 0 && p[1] == 0); p += 3) if (p[0] == hi && p[1] == lo) return p[2]; return c->bestfit_repl; }
 static unsigned u_path(const ref_dcfg *c, const uint8_t *four, unsigned *fl) {
     unsigned hi = ref_x2c(four), lo = ref_x2c(four + 2), r;
-    if (hi == 0) { r = lo; *fl |= RF_OVERLONG_U; } else { if (hi == 0xff) *fl |= RF_HALF_FULL; r = bestfit16(c, hi, lo); }
+    if (hi == 0) { r = lo; *fl |= RF_OVERLONG_U; } else { if (hi == 0xff && lo <= 0xef) *fl |= RF_HALF_FULL;      /* documented range: U+FF00 - U+FFEF (htp_core.h) */ r = bestfit16(c, hi, lo); }
     if (r == '/' || (c->backslash && r == '\\')) *fl |= RF_ENCODED_SEP;
     return r;
 }
@@ -272,7 +272,7 @@ static int worker(int argc, char **argv) {
      * covers every 2-byte and every 0xE0-led 3-byte UTF-8 sequence, every %XY pair incl. invalid digits, every %u00XY */
     {
         static const char *const TPL[] = { "/?", "/a?b", "/%?", "/%?0", "/%0?", "/%u00?", "/%u?000", "/\xc3?", "/\xe0?\x80", "/\xe0\xa0?", "/\xf0\x90\x80?", "/?/../a", "/.?/a",
-                                           "/??", "/%??", "/\xe0??", "/%u00??", "/%u??2f", "/\xef??", "/\xed??", "/\xf0??\x80", "/\xf4??\x80", "/\xf5??\x80", "/?\x80\x80?" };
+                                           "/??", "/%??", "/\xe0??", "/%u00??", "/%u??2f", "/%uff??", "/%ufe??", "/\xef??", "/\xed??", "/\xf0??\x80", "/\xf4??\x80", "/\xf5??\x80", "/?\x80\x80?" };
         for (size_t t = 0; t < sizeof TPL / sizeof TPL[0] - (thorough ? 0 : 5); t++) {          /* the five 4-byte / surrogate templates at the end: thorough tier */
             int len = (int) strlen(TPL[t]), nq = 0; for (int i = 0; i < len; i++) nq += TPL[t][i] == '?';
             for (int v = 0; v < (nq == 2 ? 65536 : 256); v++) {
